@@ -18,10 +18,12 @@ returns true. The consumer is the loop squid runs (CollapsedForwarding::HandleNe
 items that went through the queue before the modelled history starts (`theIn = theOut = base mod 2^32` initially).
 Sequentially consistent atomics are assumed.
 -/
+import SquidModel.Gen.QueueCfg
+
 namespace SquidModel.Ipc.Queue
 
-/-- modulus of C `unsigned int` arithmetic on this platform -/
-def W : Nat := 4294967296
+/-- modulus of the arithmetic on `theIn`/`theOut` (C `unsigned int`: 2^32; read from the declarations by translate/queue_cfg.py) -/
+def W : Nat := SquidModel.Gen.QueueCfg.indexModulus
 
 /-- producer program counter: `rest` = between push() calls; otherwise the pending memory operation of push() -/
 inductive PPC where
